@@ -16,6 +16,7 @@ import (
 	"reflect"
 	"regexp"
 	"slices"
+	"strings"
 	"time"
 )
 
@@ -257,7 +258,40 @@ func forType(t reflect.Type, seen map[reflect.Type]bool, ignore bool, schemas ma
 			if s.Properties == nil {
 				s.Properties = make(map[string]*Schema)
 			}
-			if field.Anonymous {
+			// Check to see if this field has been promoted from a replaced or renamed
+			// anonymous type.
+			if skipPath != nil {
+				skip := false
+				if len(field.Index) >= len(skipPath) {
+					skip = true
+					for i, index := range skipPath {
+						if field.Index[i] != index {
+							// If we're no longer in a subfield.
+							skip = false
+							break
+						}
+					}
+				}
+				if skip {
+					continue
+				} else {
+					// Anonymous fields are followed immediately by their promoted fields.
+					// Once we encounter a field that *isn't* promoted, we can stop
+					// checking.
+					skipPath = nil
+				}
+			}
+
+			// encoding/json treats an embedded field whose json tag gives it a name
+			// as an ordinary field of that name, and omits one tagged "-" together
+			// with the fields it would promote.
+			tagName, _, _ := strings.Cut(field.Tag.Get("json"), ",")
+			embeddedAsField := field.Anonymous && isValidTag(tagName) && field.Tag.Get("json") != "-"
+			if field.Anonymous && field.Tag.Get("json") == "-" {
+				skipPath = field.Index
+				continue
+			}
+			if field.Anonymous && !embeddedAsField {
 				override := schemas[field.Type]
 				if override != nil {
 					// Type must be object, and only properties can be set.
@@ -293,28 +327,9 @@ func forType(t reflect.Type, seen map[reflect.Type]bool, ignore bool, schemas ma
 				continue
 			}
 
-			// Check to see if this field has been promoted from a replaced anonymous
-			// type.
-			if skipPath != nil {
-				skip := false
-				if len(field.Index) >= len(skipPath) {
-					skip = true
-					for i, index := range skipPath {
-						if field.Index[i] != index {
-							// If we're no longer in a subfield.
-							skip = false
-							break
-						}
-					}
-				}
-				if skip {
-					continue
-				} else {
-					// Anonymous fields are followed immediately by their promoted fields.
-					// Once we encounter a field that *isn't* promoted, we can stop
-					// checking.
-					skipPath = nil
-				}
+			if embeddedAsField {
+				// Its fields are not promoted.
+				skipPath = field.Index
 			}
 
 			info := fieldJSONInfo(field)
